@@ -40,7 +40,7 @@ CHECKS = {
         level="model_checking", design="DESIGN.md 4/C14",
         technique="TLA+ state generator with the loader's contract as an operator (Checkpoint.tla), consequences checked by TLC in every reachable state; simulated reachable target states installed in a model Redis and the real LoadCheckpoint's result and post-state compared with the contract",
         text="TLC explores all target states reachable by three sender writes plus one partial damage from three sources (two prefix-related) into three databases (350k states) and checks the contract's consequences; a seeded sample of those states (quick ~4k, thorough more) is replayed: installed over TCP with shuffled hash-field order, real LoadCheckpoint called per source, returned (run id, offset, db, error) and the removal of exactly the stale own entries compared.",
-        note="mredis stands in for the target; offsets are distinct (no ties); the writer side is bound by C04's check."),
+        note="mredis stands in for the target; offsets are distinct (no ties); writer and reader are bound together by one lock-step family of IncrSync.tla (real sender writes, real loader reads after a cut, new sender resumes, sometimes under another run id); the full set of such families is C04's."),
     "C20": dict(
         level="model_checking", design="DESIGN.md 4/C20",
         technique="TLA+ model of the probe/retry loop (Supervisor.tla) checked by TLC against the contract for every scenario of node answers, termination under WF; every canonical scenario (SupervisorCases.tla) replayed into the real supervisor through an injected connection factory",
